@@ -1,7 +1,7 @@
 //! Enumeration of the states of C09: for every generated method, the complete (bounded) list of
 //! cases = argument values x return specification x ownership mode x panic payload kind x
 //! drop order. Everything here is deterministic and contains no sampling.
-use crate::support::{arg_kind, MethodMeta, TraitMeta};
+use vabi09fam::support::{arg_kind, MethodMeta, TraitMeta};
 use vcommon::serde_json::{json, Value};
 
 #[derive(Clone, Debug)]
@@ -12,7 +12,7 @@ pub struct Case {
     pub ret: Value,
     /// the implementation stores owned arguments and uses them in the next call
     pub keep: bool,
-    /// none | static_str | formatted_string | any | callback_static_str
+    /// none | static_str | formatted_string | any | callback_static_str | drop_impl_static_str
     pub panic: String,
     /// ret_first | conn_first: which of (returned objects, connection) is dropped first
     pub order: String,
@@ -103,6 +103,12 @@ fn closures() -> Vec<Value> {
 fn bases() -> Vec<Value> {
     vec![json!({"base": 0u32}), json!({"base": 5u32}), json!({"base": u32::MAX})]
 }
+fn arg_bases() -> Vec<Value> {
+    let mut v = bases();
+    // the object passed in is itself an AbiConnection (came out of another connection)
+    v.push(json!({"base": 5u32, "wrapped": true}));
+    v
+}
 
 pub fn arg_values(kind: &str, thorough: bool) -> Vec<Value> {
     match kind {
@@ -111,8 +117,9 @@ pub fn arg_values(kind: &str, thorough: bool) -> Vec<Value> {
         "slice" => vec_lens(thorough).into_iter().map(u32_vec).collect(),
         "s" | "rs" => s_vals(thorough),
         "vecs" => vec_lens(thorough).into_iter().filter(|n| *n <= 300).map(s_vec).collect(),
-        "boxt2" | "rt2" | "rmt2" => bases(),
-        "rfn" | "rfnmut" | "boxfn" | "boxfnmut" => closures(),
+        "boxt2" | "rt2" | "rmt2" => arg_bases(),
+        "rfn" | "rfnmut" | "boxfn" | "boxfnmut" | "boxfnss" => closures(),
+        "rfnstr" => vec![json!({"suffix": ""}), json!({"suffix": "-s"}), json!({"suffix": pat(60)})],
         "ropt" => vec![Value::Null, json!(0u32), json!(u32::MAX)],
         "p" | "rp" => vec![json!({"x": 0u32, "y": 0u32}), json!({"x": 1u32, "y": 2u32}), json!({"x": u32::MAX, "y": u32::MAX})],
         "tup" => string_lens(false).into_iter().map(|n| json!([n as u32, pat(n)])).collect(),
@@ -128,7 +135,8 @@ pub fn arg_default(kind: &str) -> Value {
         "s" | "rs" => s_val(1, "bee".into(), 2),
         "vecs" => Value::Array(vec![s_val(1, "bee".into(), 2)]),
         "boxt2" | "rt2" | "rmt2" => json!({"base": 5u32}),
-        "rfn" | "rfnmut" | "boxfn" | "boxfnmut" => json!({"mul": 3u32, "add": 7u32}),
+        "rfn" | "rfnmut" | "boxfn" | "boxfnmut" | "boxfnss" => json!({"mul": 3u32, "add": 7u32}),
+        "rfnstr" => json!({"suffix": "-s"}),
         "ropt" => json!(9u32),
         "p" | "rp" => json!({"x": 1u32, "y": 2u32}),
         "tup" => json!([7u32, "tup"]),
@@ -211,6 +219,25 @@ pub fn ret_default(kind: &str) -> Value {
     }
 }
 
+/// short boundary lists for the full products of (9)
+fn short_values(kind: &str) -> Vec<Value> {
+    match kind {
+        "u32" | "ru32" => vec![json!(0u32), json!(u32::MAX)],
+        "string" | "str" | "rstring" => [0usize, 1, 20, 44, 45, 80].iter().map(|n| json!(pat(*n))).collect(),
+        "slice" => [0usize, 13, 65].iter().map(|n| u32_vec(*n)).collect(),
+        "s" | "rs" => vec![s_val(0, String::new(), 0), s_val(7, pat(47), 1), s_val(u32::MAX, pat(48), 255)],
+        "vecs" => [0usize, 2, 64].iter().map(|n| s_vec(*n)).collect(),
+        "boxt2" | "rt2" | "rmt2" => vec![json!({"base": 0u32}), json!({"base": 5u32, "wrapped": true})],
+        "rfn" | "rfnmut" | "boxfn" | "boxfnmut" | "boxfnss" => vec![json!({"mul": 1u32, "add": 0u32}), json!({"mul": u32::MAX, "add": 1u32})],
+        "rfnstr" => vec![json!({"suffix": ""}), json!({"suffix": pat(60)})],
+        "ropt" => vec![Value::Null, json!(u32::MAX)],
+        "p" | "rp" => vec![json!({"x": 0u32, "y": 0u32}), json!({"x": u32::MAX, "y": 1u32})],
+        "tup" => vec![json!([0u32, ""]), json!([9u32, pat(50)])],
+        "optstring" => vec![Value::Null, json!(pat(50))],
+        k => vcommon::machinery_error(&format!("no short value list for argument kind {}", k)),
+    }
+}
+
 fn size_varying(kind: &str) -> bool {
     matches!(kind, "string" | "str" | "rstring")
 }
@@ -229,7 +256,7 @@ pub fn cases_of(tm: &TraitMeta, mm: &MethodMeta, thorough: bool) -> Vec<Case> {
     };
     let has_owned_arg = mm.args.iter().any(|k| arg_kind(k).owned);
     let has_closure = mm.args.iter().any(|k| arg_kind(k).closure);
-    let ret_owned = crate::support::ret_kind(mm.ret).owned;
+    let ret_owned = vabi09fam::support::ret_kind(mm.ret).owned;
     let big = mm.args.len() > 8;
     let mut out = vec![base.clone()];
 
@@ -258,7 +285,7 @@ pub fn cases_of(tm: &TraitMeta, mm: &MethodMeta, thorough: bool) -> Vec<Case> {
                 if !(size_varying(mm.args[i]) && size_varying(mm.args[j])) {
                     continue;
                 }
-                let (li, lj): (Vec<usize>, Vec<usize>) = if thorough { ((0..=64).collect(), (0..=64).collect()) } else { ((34..=53).collect(), vec![0, 1, 2, 7, 8, 9]) };
+                let (li, lj): (Vec<usize>, Vec<usize>) = if thorough { ((0..=80).collect(), (0..=80).collect()) } else { ((34..=53).collect(), vec![0, 1, 2, 7, 8, 9]) };
                 for a in &li {
                     for b in &lj {
                         let mut c = base.clone();
@@ -338,6 +365,43 @@ pub fn cases_of(tm: &TraitMeta, mm: &MethodMeta, thorough: bool) -> Vec<Case> {
                 out.push(c);
             }
         }
+    }
+    // (9) thorough: the full product of short value lists over all argument positions, with
+    //     owned arguments both dropped and kept
+    if thorough && !big && mm.args.len() >= 2 {
+        let lists: Vec<Vec<Value>> = mm.args.iter().map(|k| short_values(k)).collect();
+        let mut idx = vec![0usize; lists.len()];
+        'product: loop {
+            let mut c = base.clone();
+            for (i, l) in lists.iter().enumerate() {
+                c.args[i] = l[idx[i]].clone();
+            }
+            if has_owned_arg {
+                let mut k = c.clone();
+                k.keep = true;
+                out.push(k);
+            }
+            out.push(c);
+            let mut d = 0;
+            loop {
+                idx[d] += 1;
+                if idx[d] < lists[d].len() {
+                    break;
+                }
+                idx[d] = 0;
+                d += 1;
+                if d == lists.len() {
+                    break 'product;
+                }
+            }
+        }
+    }
+    // (8) the implementation's destructor panics when the connection is dropped (one signature
+    //     per return kind is enough: the destructor does not depend on the method called)
+    if mm.args.is_empty() && mm.group == "C" {
+        let mut c = base.clone();
+        c.panic = "drop_impl_static_str".into();
+        out.push(c);
     }
     // canonical, duplicate-free
     let mut seen = std::collections::HashSet::new();
